@@ -30,7 +30,7 @@ func scenarioC18(rc *RunCtx) *Violation {
 	// hashed templates
 	o.EntryNames = []int{2, 3, 4, 0, 5}[g.n(5)]
 	o.ChunkNames = g.n(len(chunkNameT))
-	o.AssetNames = []int{0, 1, 4}[g.n(3)]
+	o.AssetNames = []int{0, 1, 4, 2, 3}[g.n(5)]
 	o.BinLoader = []int{0, 3, 1}[g.n(3)]
 	o.TxtLoader = []int{1, 2, 0}[g.n(3)]
 	o.Outdir = []int{0, 1}[g.n(2)]
@@ -78,7 +78,7 @@ func scenarioC18(rc *RunCtx) *Violation {
 			om.ChunkNames = g.n(len(chunkNameT))
 			optChanges = append(optChanges, fmt.Sprintf("step %d: chunkNames=%q", step, chunkNameT[om.ChunkNames]))
 		case 4:
-			om.AssetNames = []int{0, 1, 4}[g.n(3)]
+			om.AssetNames = []int{0, 1, 4, 2, 3}[g.n(5)]
 			optChanges = append(optChanges, fmt.Sprintf("step %d: assetNames=%q", step, assetNameT[om.AssetNames]))
 		case 5:
 			om.EntryNames = []int{2, 3, 4, 5}[g.n(4)]
